@@ -180,3 +180,47 @@ Proof.
       destruct (Z.ltb_spec (ctz k (y / 2)) (Z.of_nat k)); destruct (Z.ltb_spec (1 + ctz k (y / 2)) (1 + Z.of_nat k)); try lia.
       rewrite Z.pow_add_r by lia. reflexivity.
 Qed.
+
+(* ---- clearing one set bit *)
+Lemma tb_ge_pow2 y t : 0 <= y -> 0 <= t -> Z.testbit y t = true -> 2 ^ t <= y.
+Proof. intros Hy Ht Tb. destruct (Z_lt_le_dec y (2 ^ t)) as [Hlt|Hle]; [|exact Hle]. exfalso. apply Z.testbit_true in Tb; [|lia]. rewrite Z.div_small in Tb by lia. cbn in Tb. discriminate. Qed.
+Lemma clear_bit y t : 0 <= t -> Z.testbit y t = true -> Z.land y (Z.lnot (2 ^ t)) = y - 2 ^ t.
+Proof.
+  intros Ht Tb. rewrite <- Z.ldiff_land. symmetry. apply Z.sub_nocarry_ldiff. apply Z.bits_inj'. intros i Hi. rewrite Z.ldiff_spec, Z.bits_0.
+  destruct (Z.eq_dec i t) as [->|Hn]; [rewrite Tb; apply andb_false_r | rewrite Z.pow2_bits_false by lia; reflexivity].
+Qed.
+Lemma pc_clear n y t : 0 <= t < Z.of_nat n -> Z.testbit y t = true -> pc n (y - 2 ^ t) = pc n y - 1.
+Proof.
+  revert y t. induction n as [|k IH]; intros y t Ht Tb; [lia|]. cbn [pc].
+  pose proof (Z.div_mod y 2 ltac:(lia)) as D. pose proof (Z.mod_pos_bound y 2 ltac:(lia)) as B.
+  destruct (Z.eq_dec t 0) as [->|Hn].
+  - rewrite tb0 in Tb. apply Z.eqb_eq in Tb. change (2 ^ 0) with 1. replace (y - 1) with (0 + (y / 2) * 2) by lia. rewrite Z.mod_add, Z.div_add by lia. cbn. lia.
+  - assert (P2 : 2 ^ t = 2 ^ (t - 1) * 2) by (replace t with (Z.succ (t - 1)) at 1 by lia; rewrite Z.pow_succ_r by lia; ring). rewrite P2.
+    replace (y - 2 ^ (t - 1) * 2) with (y mod 2 + (y / 2 - 2 ^ (t - 1)) * 2) by lia. rewrite Z.mod_add, Z.div_add by lia.
+    rewrite Z.mod_mod by lia. rewrite Z.div_small with (a := y mod 2) by lia. rewrite Z.add_0_l. rewrite IH; [lia | rewrite Nat2Z.inj_succ in Ht; lia |].
+    replace t with ((t - 1) + 1) in Tb by lia. rewrite tbS in Tb by lia. exact Tb.
+Qed.
+Lemma pc_pos n y : 0 < y < 2 ^ Z.of_nat n -> 1 <= pc n y.
+Proof.
+  revert y. induction n as [|k IH]; intros y Hy; [cbn in Hy; lia|]. cbn [pc]. pose proof (Z.div_mod y 2 ltac:(lia)) as D. pose proof (Z.mod_pos_bound y 2 ltac:(lia)) as B.
+  rewrite Nat2Z.inj_succ, Z.pow_succ_r in Hy by lia. destruct (Z.eq_dec (y mod 2) 1) as [E|E]; [pose proof (pc_bound k (y / 2)); lia|].
+  assert (1 <= pc k (y / 2)) by (apply IH; lia). lia.
+Qed.
+(* the lowest set bit as a value, for 0 < y < 2^n *)
+Lemma lowbit_value n y : 0 < y < 2 ^ Z.of_nat n -> Z.land y (- y) = 2 ^ ctz n y /\ 0 <= ctz n y < Z.of_nat n /\ Z.testbit y (ctz n y) = true.
+Proof.
+  intros Hy. pose proof (land_neg_low n y) as L. destruct (ctz_spec n y) as (B & Lo & Hi).
+  assert (Hlt : ctz n y < Z.of_nat n).
+  { destruct (Z.eq_dec (ctz n y) (Z.of_nat n)) as [E|E]; [|lia]. exfalso. assert (y = 0); [|lia]. apply Z.bits_inj'. intros i Hi'. rewrite Z.bits_0.
+    destruct (Z.ltb_spec i (Z.of_nat n)); [apply Lo; lia|]. destruct (Z.eq_dec y 0) as [->|]; [apply Z.bits_0|]. apply Z.bits_above_log2; [lia|]. apply Z.lt_le_trans with (Z.of_nat n); [apply Z.log2_lt_pow2; lia | lia]. }
+  replace (ctz n y <? Z.of_nat n) with true in L by (symmetry; apply Z.ltb_lt; exact Hlt).
+  split; [|split; [lia | apply Hi, Hlt]]. rewrite <- L. symmetry. apply Z.mod_small. split; [apply Z.land_nonneg; lia|].
+  set (z := Z.land y (- y)). assert (Hz0 : 0 <= z) by (apply Z.land_nonneg; lia).
+  destruct (Z_lt_le_dec z (2 ^ Z.of_nat n)) as [Hl|Hg]; [exact Hl|]. exfalso.
+  assert (Zp : 0 < z) by (pose proof (pow2_pos (Z.of_nat n) ltac:(lia)); lia).
+  assert (Tz : Z.testbit z (Z.log2 z) = true) by (apply Z.bit_log2; exact Zp).
+  assert (Lz : Z.of_nat n <= Z.log2 z) by (apply Z.log2_le_pow2; [exact Zp | exact Hg]).
+  unfold z in Tz. rewrite Z.land_spec in Tz. apply andb_true_iff in Tz as [Ty _].
+  assert (Fy : Z.testbit y (Z.log2 (Z.land y (- y))) = false) by (apply Z.bits_above_log2; [lia|]; apply Z.lt_le_trans with (Z.of_nat n); [apply Z.log2_lt_pow2; lia | exact Lz]).
+  rewrite Fy in Ty. discriminate.
+Qed.
